@@ -1,6 +1,7 @@
 import Rbacx.Generated
 import Rbacx.Proofs.CondTranslated
 import Rbacx.Proofs.RelTranslated
+import Rbacx.Run.C04_translated
 /-!
   Per-run obligation: `_parse_dt` of core/policy.py as it is written NOW — translated statement by statement into
   `Rbacx.Generated.Src.parse_dt` by harness/pytolean_rel.py (plugin `extractors/src_translation_rel.py`; Python operations:
@@ -57,8 +58,21 @@ theorem parse_dt_only_type_mismatch (o : Oracle) (aw : String → Bool) (ecls : 
   rw [parse_dt o aw ecls icls hecls] at h
   exact parseDtExt_err o x strict e h
 
+/-- COROLLARY: the external parameter `parse_dt` of the translated `eval_condition` (C04_translated) instantiated with the TRANSLATED
+    `_parse_dt` — the two datetime conversions through the oracle — instead of the hand-written `parseDtExt`: the whole translated
+    condition evaluator is still the model's `evalCond`, for every document, environment, oracle and checker -/
+theorem eval_condition_with_parse_dt (cx : CondCtx) (aw : String → Bool) (ecls : PyVal → String) (icls : String → CondErr)
+    (hecls : ∀ x, ecls x = "OverflowError" ∨ ecls x = "ValueError" ∨ ecls x = "OSError") (cond : PyVal) (fuel : Nat) (hfuel : cond.size < fuel) :
+    Src.eval_condition cx.o noAttr (Src.parse_dt (epochExt cx.o ecls) (isoExt cx.o aw icls)) (relExt cx) cond cx.env fuel =
+      (evalCond cx (condOf cond)).map PyVal.bool := by
+  have h : Src.parse_dt (epochExt cx.o ecls) (isoExt cx.o aw icls) = parseDtExt cx.o :=
+    funext fun x => funext fun s => parse_dt cx.o aw ecls icls hecls x s
+  rw [h]
+  exact eval_condition cx cond fuel hfuel
+
 end Rbacx.Translated
 
 #print axioms Rbacx.Translated.parse_dt_strict
 #print axioms Rbacx.Translated.parse_dt
 #print axioms Rbacx.Translated.parse_dt_only_type_mismatch
+#print axioms Rbacx.Translated.eval_condition_with_parse_dt
